@@ -71,6 +71,11 @@ func (i *interpreter) callMethod(fr *frame, recv iface, name string, args ...val
 	if recv.t == nil {
 		rtPanic("nil interface method call " + name)
 	}
+	if no, ok := recv.v.(*nativeObj); ok {
+		if h := nativeMethods[no.kind+"."+name]; h != nil {
+			return h(fr, append([]value{recv.v}, args...))
+		}
+	}
 	ms := i.prog.MethodSets.MethodSet(recv.t)
 	for k := 0; k < ms.Len(); k++ {
 		sel := ms.At(k)
